@@ -256,6 +256,14 @@ class Stack:
                     above = self.layers[idx - 1] if idx > 0 else None
                     if above is not None and above.kind in Layer.STORAGE:
                         L.cfg["size"] = 0
+            elif var == 5:
+                # the smallest storage that still holds every cell of the extents: Morton / Hilbert storage cut off right
+                # after the largest curve position a lattice coordinate reaches (a valid field, built through the public
+                # parameter-pack interface; the enclosing power-of-two cube is only an upper bound)
+                if kd in ("array", "probe_array"):
+                    above = self.layers[idx - 1] if idx > 0 else None
+                    if above is not None and above.kind in Layer.STORAGE:
+                        L.cfg["size"] = tight_storage_len(above)
             elif var == 4:
                 # a payload of more than two 4 KiB blocks in either float width, with unequal extents
                 if kd in Layer.STORAGE:
@@ -352,6 +360,41 @@ def storage_len(L):
     while s < m:
         s *= 2
     return s ** len(sizes)
+
+
+def _morton_index(c):
+    n, out = len(c), 0
+    for b in range(64 // n):
+        for k in range(n):
+            out |= ((c[k] >> b) & 1) << (b * n + k)
+    return out
+
+
+def _hilbert_index(side, x, y):
+    d, s = 0, side // 2
+    while s > 0:
+        rx, ry = (1 if x & s else 0), (1 if y & s else 0)
+        q = (0 if ry == 0 else 1) if rx == 0 else (2 if ry == 1 else 3)
+        d += s * s * q
+        if ry == 0:
+            if rx == 1:
+                x, y = side - 1 - x, side - 1 - y
+            x, y = y, x
+        s //= 2
+    return d
+
+
+def tight_storage_len(L):
+    """largest curve position reached by a coordinate inside the extents, plus one"""
+    sizes = L.cfg["sizes"] if L.cfg else [EXT[a] for a in range(L.k.n)]
+    if L.kind == "strided" or any(s == 0 for s in sizes):
+        return storage_len(L)
+    if L.kind == "hilbert":
+        side = 1
+        while side < max(sizes):
+            side *= 2
+        return 1 + max(_hilbert_index(side, x, y) for x in range(sizes[0]) for y in range(sizes[1]))
+    return 1 + _morton_index([s - 1 for s in sizes])
 
 
 # ---------------------------------------------------------------------------
